@@ -3,6 +3,7 @@
 # a read-only window monitor (M4): no write event at the storage boundary and
 # unchanged SHA-256 of both stores around every call.
 import hashlib
+import os
 import random
 import time
 import traceback
@@ -159,6 +160,24 @@ def run_case(prop, case, spec, scratch, stats):
                                   webentity_creation_rules={a: sut.m.rules[a].pattern for a in keep})
                     stats["C14_batteries_after_reopen_with_fewer_rules"] += 1
                     monitored_battery(sut, rng, stats, out)
+                    if out:
+                        break
+                elif i == len(case["ops"]) and case["cfg"]["backend"] == "file" and rng.random() < 0.5:
+                    # the way the repository's own inspection scripts open a folder (scripts/debug.py,
+                    # print_metrics.py): debug=True and no rules at all.  Requests that need the rules
+                    # may fail there; opening and querying still must not change a byte.
+                    sut.t.close()
+                    from ..harness import Traph
+                    before = [open(os.path.join(sut.folder, n), "rb").read() for n in ("lru_trie.dat", "link_store.dat")]
+                    sut.t = Traph(folder=sut.folder, debug=True)
+                    stats["C14_batteries_after_debug_mode_open"] += 1
+                    monitored_battery(sut, rng, stats, out)
+                    sut.t.close()
+                    after = [open(os.path.join(sut.folder, n), "rb").read() for n in ("lru_trie.dat", "link_store.dat")]
+                    if not out and before != after:
+                        out.append(D(["C14"], "files-changed-by-debug-mode-open-and-queries", sizes=[len(x) for x in before + after]))
+                    sut.t = Traph(folder=sut.folder, default_webentity_creation_rule=sut.m.default_pattern,
+                                  webentity_creation_rules={a: sut.m.rules[a].pattern for a in sut.m.flags})
                     if out:
                         break
             if i == len(case["ops"]):
